@@ -15,7 +15,7 @@ PROPS = {
     "C04": {"families": [("c04", 1), ("ctxcancel", 1), ("ctxrestart", 1)], "crash_is_violation": True, "judge": ["C04"], "quick_s": 20, "thorough_s": 600},
     "C05": {"families": [("mixed", 2), ("pause", 2), ("c05ack", 2), ("c08", 1), ("faultfree", 1), ("sameid", 1), ("c05lock", 1)], "judge": ["C05"], "quick_s": 20, "thorough_s": 600},
     "C06": {"families": [("c06", 2), ("ctxcancel", 1), ("ctxrestart", 1), ("stoprestart", 1), ("ctxfollower", 1)], "crash_is_violation": True, "judge": ["C06"], "quick_s": 20, "thorough_s": 600},
-    "C07": {"families": [("faultfree", 1), ("c07rounds", 3), ("c07stale", 2), ("c02stop", 1), ("c07restart", 1)], "crash_is_violation": True, "judge": ["C07"], "quick_s": 20, "thorough_s": 600},
+    "C07": {"families": [("faultfree", 3), ("c07rounds", 3), ("c07stale", 2), ("c02stop", 1), ("c07restart", 1)], "crash_is_violation": True, "judge": ["C07"], "quick_s": 20, "thorough_s": 600},
     "C08": {"families": [("c08", 2), ("mixed", 1), ("faultfree", 1), ("ctxcancel", 1), ("ctxrestart", 1), ("stoprestart", 1), ("c09stop", 1)], "crash_is_violation": True, "judge": ["C08"], "quick_s": 20, "thorough_s": 600},
     "C09": {"families": [("c09stop", 3), ("mixed", 1), ("faultfree", 1), ("c11", 1), ("c09probe", 1)], "level": "fault_enumeration", "judge": ["C09"], "quick_s": 20, "thorough_s": 600, "crash_is_violation": True},
     "C10": {"families": [("c10", 2), ("mixed", 1), ("pause", 1), ("sameid", 1)], "crash_is_violation": True, "judge": ["C10"], "quick_s": 20, "thorough_s": 600},
